@@ -26,11 +26,28 @@ func main() {
 	flag.Parse()
 	w := vio.Create(*out)
 	defer w.Close()
+	// results are held as the strings the function returned and inspected only after a batch of further calls: a caller keeps
+	// the paths it resolved (a result that aliases storage reused by a later call would change under it)
+	type held struct{ b, p, r string }
+	var pending []held
+	flush := func() {
+		for _, h := range pending {
+			w.Put(rec{vio.Ints(h.b), vio.Ints(h.p), vio.Ints(h.r)})
+		}
+		pending = pending[:0]
+	}
+	defer flush()
+	resolve := func(b, p string) {
+		pending = append(pending, held{b, p, fsutil.ResolveUrlPath(b, p)})
+		if len(pending) >= 61 {
+			flush()
+		}
+	}
 	alpha := []byte{'/', '.', 'a', '\\'}
 	var gen func(p []byte)
 	gen = func(p []byte) {
 		for _, b := range bases {
-			w.Put(rec{vio.Ints(b), vio.Ints(string(p)), vio.Ints(fsutil.ResolveUrlPath(b, string(p)))})
+			resolve(b, string(p))
 		}
 		if len(p) < *maxlen {
 			for _, c := range alpha {
@@ -43,7 +60,7 @@ func main() {
 	for _, p := range []string{"\\/../..", "\\../..", "\\..\\..", "\\\\/..", "\\/a/../../..", "/%2e%2e/%2e%2e/etc/passwd", "%2e%2e", "%2e%2e/%2e%2e", "..%2f..", "/a/%2E%2E/%2E%2E/x",
 		"%252e%252e/%252e%252e", "/.%2e/.%2e", "/%2e./%2e.", "/..%5c..", "%2f..%2f..", "/a%2f..%2f..%2f..", "%00/../..", "/..;/..", "/..%00/..", "/.../....//..", "/a/b/../../../..", "//..//..//"} {
 		for _, b := range bases {
-			w.Put(rec{vio.Ints(b), vio.Ints(p), vio.Ints(fsutil.ResolveUrlPath(b, p))})
+			resolve(b, p)
 		}
 	}
 	rng := rand.New(rand.NewSource(vio.Seed()))
@@ -60,6 +77,6 @@ func main() {
 			}
 		}
 		b := moreBases[rng.Intn(len(moreBases))]
-		w.Put(rec{vio.Ints(b), vio.Ints(p), vio.Ints(fsutil.ResolveUrlPath(b, p))})
+		resolve(b, p)
 	}
 }
